@@ -45,6 +45,7 @@ struct Cfg {
   int xfail;       // bit0: Export reports failure, bit1: exporter ForceFlush false, bit2: exporter Shutdown false
   int tail;        // late calls after Shutdown returned
   int destroy;     // 1: destruction instead of an explicit final Shutdown
+  int heavy;       // large state space: explored by the *_heavy registry entry with its own budget
 };
 std::vector<Cfg> g_cfgs;
 std::string g_oracle;
@@ -380,7 +381,7 @@ void setup(vf::Options &o) {
     } else {  // C02: queue always large enough for everything
       { Cfg c = b; c.Q = 8; c.B = 2; c.P = 1; c.n = 2; c.F = 1; c.tail = 1; add_cfg(c); }
       { Cfg c = b; c.Q = 8; c.B = 1; c.P = 2; c.n = 1; c.F = 1; add_cfg(c); }   // a record arrives while the worker is inside an export cycle
-      { Cfg c = b; c.Q = 8; c.B = 8; c.P = 1; c.n = 1; c.F = 2; add_cfg(c); }
+      { Cfg c = b; c.Q = 8; c.B = 8; c.P = 1; c.n = 1; c.F = 2; c.heavy = 1; add_cfg(c); }
       { Cfg c = b; c.Q = 8; c.B = 2; c.P = 1; c.n = 2; c.S = 2; c.tail = 2; add_cfg(c); }
       { Cfg c = b; c.Q = 8; c.B = 2; c.P = 1; c.n = 1; c.F = 1; c.S = 1; add_cfg(c); }
       { Cfg c = b; c.Q = 8; c.B = 2; c.P = 1; c.n = 2; c.F = 1; c.latency = 1; c.ff_timeout = 1; add_cfg(c); }  // flush times out
@@ -388,11 +389,17 @@ void setup(vf::Options &o) {
       { Cfg c = b; c.Q = 8; c.B = 2; c.P = 1; c.n = 1; c.F = 1; c.ff_timeout = 3; c.destroy = 1; add_cfg(c); }
       { Cfg c = b; c.Q = 8; c.B = 2; c.P = 1; c.n = 2; c.F = 1; c.xfail = 7; c.tail = 1; add_cfg(c); }          // failing exporter
       if (th) {
-        { Cfg c = b; c.Q = 8; c.B = 2; c.P = 2; c.n = 1; c.F = 2; c.S = 2; add_cfg(c); }
+        { Cfg c = b; c.Q = 8; c.B = 2; c.P = 2; c.n = 1; c.F = 2; c.S = 2; c.heavy = 1; add_cfg(c); }
         { Cfg c = b; c.Q = 8; c.B = 1; c.P = 1; c.n = 2; c.F = 1; c.latency = 3; c.S = 2; add_cfg(c); }
-        { Cfg c = b; c.Q = 8; c.B = 2; c.P = 1; c.n = 2; c.F = 2; c.latency = 1; c.ff_timeout = 2; add_cfg(c); }
+        { Cfg c = b; c.Q = 8; c.B = 2; c.P = 1; c.n = 2; c.F = 2; c.latency = 1; c.ff_timeout = 2; c.heavy = 1; add_cfg(c); }
       }
     }
+  }
+  std::string set = o.get("set");
+  if (!set.empty()) {
+    std::vector<Cfg> keep;
+    for (auto &c : g_cfgs) if ((set == "heavy") == (c.heavy != 0)) keep.push_back(c);
+    g_cfgs = keep;
   }
   std::string only = o.get("cfg");
   if (!only.empty()) { Cfg c = g_cfgs[atoi(only.c_str())]; g_cfgs.assign(1, c); }
